@@ -76,10 +76,13 @@ def target_lock(target):
         f.close()
 
 
+EXTRA_CFG = []   # additional --cfg flags for the next invocations (set by a property module, e.g. C08's generated-code mount)
+
+
 def cargo_kani(crate_rel, filters, features, target, rep, timeout_each=600, jobs=None, extra=(), exact=False,
                unwind=None, pkg_args=()):
     crate = os.path.join(REPO, crate_rel)
-    env = offline_env({'RUSTFLAGS': '--cfg ' + GUARD, 'CARGO_TARGET_DIR': os.path.join(BUILD, target)})
+    env = offline_env({'RUSTFLAGS': ' '.join('--cfg ' + c for c in [GUARD] + EXTRA_CFG), 'CARGO_TARGET_DIR': os.path.join(BUILD, target)})
     cmd = ['cargo', 'kani', '-Z', 'stubbing', '-Z', 'function-contracts', '-Z', 'unstable-options',
            '--harness-timeout', '%ds' % timeout_each, '--output-format', 'terse', '-j', str(jobs or NCPU)]
     cmd += list(pkg_args)
